@@ -721,8 +721,15 @@ pub fn main() {
             file_list,
             names,
         } => {
-            let input_files = get_input_list(file_list, names);
-            let input_names: Vec<&str> = input_files.iter().map(|t| &*t.0).collect();
+            let input_names_owned: Vec<String> = if let Some(name_file) = file_list {
+                read_name_list(name_file)
+            } else {
+                get_input_list(&None, names)
+                    .into_iter()
+                    .map(|t| t.0)
+                    .collect()
+            };
+            let input_names: Vec<&str> = input_names_owned.iter().map(|t| t.as_str()).collect();
             let output_file = output.clone().unwrap_or(skf_file.to_string());
             log::info!("Loading skf file");
             if let Ok(mut ska_array) = MergeSkaArray::<u64>::load(skf_file) {
